@@ -294,7 +294,22 @@ func (m *progressMon) Observe(h *Hand, t *Trans) *vlib.Violation {
 			if t.Err == nil {
 				return vlib.V("C06", "accepts-after-close", "%s on a closed hand returned no error", t.Op)
 			}
+			return nil
 		}
+		// An operation the hand is not waiting for. Whether it must be refused is
+		// C04's business; if the engine accepts it, it is a step of the reachable
+		// graph and must not lead back to a state the hand has been in (that would
+		// be a path that never ends).
+		h.St.Count("off_protocol_attempts", 1)
+		if t.Err != nil {
+			return nil
+		}
+		h.St.Count("off_protocol_accepted", 1)
+		hsh := stateHash(post)
+		if m.seen[hsh] {
+			return vlib.V("C06", "state-repeats/off-protocol:"+probeKind(t.Op, pre), "%s at %s was accepted and leaves the hand in a state it has been in before: it can be repeated for ever, the hand need not finish", t.Op, pre.Status.CurrentEvent)
+		}
+		m.seen[hsh] = true
 		return nil
 	}
 	if t.Err != nil {
@@ -419,12 +434,15 @@ func checkForced(c *Cfg, gs *pf.GameState) *vlib.Violation {
 			cands[minI64(c.BB, rest)] = true
 			who = "bb"
 		case issb && isd:
-			// heads-up dealer holding the small blind and a dealer blind: the
-			// statement does not say which of the two (or both) is due
+			// heads-up the dealer is the small blind and owes it; whether a dealer
+			// blind is due on top of it is not fixed by the statement (with no small
+			// blind configured the dealer blind is what the seat posts)
 			cands[minI64(c.SB, rest)] = true
 			if c.DB > 0 {
-				cands[minI64(c.DB, rest)] = true
 				cands[minI64(c.SB+c.DB, rest)] = true
+				if c.SB == 0 {
+					cands[minI64(c.DB, rest)] = true
+				}
 			}
 			who = "dealer+sb"
 		case issb:
